@@ -59,6 +59,59 @@ def _comp(s):
     return None
 
 
+def _loop_form(b):
+    """for i in lo..=hi { match cmp(self[i], other[i]) { Equal => continue, ord => return ord } } Equal
+    -> 'ok' | a description of a recognised wrong variant | None (not this form)"""
+    try:
+        hp = SymEx(b, havoc_loops=True, max_paths=2000).run()
+    except Exception:
+        return None
+    srcs = set()
+    for p in hp:
+        for (fid, bb_, l), v in p.state.loop_entry.items():
+            v = strip(v)
+            if v[0] == 'call' and v[1].split('::')[-1] == 'into_iter' and len(v[2]) == 1:
+                srcs.add(sk(v[2][0]))
+    if len(srcs) != 1:
+        return None
+    src_s = next(iter(srcs))
+    dense = re.match(r'new\(min\(unwrap_or\(min_index\(arg([12])\), 0\), unwrap_or\(min_index\(arg([12])\), 0\)\), max\(unwrap_or\(max_index\(arg([12])\), 0\), unwrap_or\(max_index\(arg([12])\), 0\)\)\)$', src_s)
+    if not dense:
+        return None
+    ITEM = r'next\(&mut _\w+\)\.Some\.0'
+    step_re = re.compile(r'^cmp\(&?\*?index\(arg([12]), (%s)\), &?\*?index\(arg([12]), (%s)\)\)$' % (ITEM, ITEM))
+    inner, after, back = [], [], []
+    for p in hp:
+        steps = [c for c in p.branches() if strip(c.term)[0] == 'discr' and step_re.match(sk(strip(c.term)[1]))]
+        if p.end == 'backedge':
+            back.append(steps)
+        elif p.end == 'return':
+            (inner if steps else after).append((p, steps))
+    if not inner or not after or not back:
+        return None
+    for p, steps in after:
+        if sk(p.ret) != 'Ordering::Equal{}':
+            return None
+    orders = set()
+    for p, steps in inner:
+        m = step_re.match(sk(strip(steps[-1].term)[1]))
+        if sk(strip(p.ret)) != sk(strip(steps[-1].term)[1]) or m.group(2) != m.group(4):
+            return None
+        if steps[-1].value == 0:
+            return None              # returns on Equal
+        orders.add((m.group(1), m.group(3)))
+    for steps in back:
+        if not steps or steps[-1].value != 0:
+            return None              # continues on something else than Equal
+    if {dense.group(1), dense.group(2)} != {'1', '2'} or {dense.group(3), dense.group(4)} != {'1', '2'}:
+        return 'the scanned range %s does not cover the supports of both monomials' % src_s
+    if orders == {('1', '2')}:
+        return 'ok'
+    if orders == {('2', '1')}:
+        return 'the step compares other[i] with self[i]'
+    return None
+
+
 def run(facts, rep):
     n = 0
     for b in sorted(facts.bodies.values(), key=lambda x: x.defp):
@@ -70,7 +123,13 @@ def run(facts, rep):
         rets = [p.ret for p in SymEx(b).run() if p.end == 'return']
         inst = '%s|first differing exponent in increasing variable order' % b.defp
         if len(rets) != 1:
-            rep.indet('E24: %s has %d return shapes' % (b.defp, len(rets)))
+            v = _loop_form(b)
+            if v == 'ok':
+                rep.ok('E24.lex-order', inst, 'loop over min(min_index) ..= max(max_index): the first non-equal cmp(self[i], other[i]) is returned, Equal after the loop')
+            elif v:
+                rep.violation('E24.lex-order', inst, v, where=b.where())
+            else:
+                rep.indet('E24: %s has %d return shapes' % (b.defp, len(rets)))
             continue
         r = strip(rets[0])
         # X2 delegation
